@@ -299,6 +299,9 @@ func cmdCheck(args []string) int {
 		} else {
 			fmt.Printf("FAILED %s (%s, %s) at %s: %s\n", o.Name, o.Status, o.Solver, o.Pos, o.Text)
 		}
+		if *verbose {
+			fmt.Printf("     solvers: %s (%.1fs)\n", strings.ReplaceAll(o.Output, "\n", " "), o.Secs)
+		}
 		fmt.Printf("VIOLATION property=%s replay=%s%s\n", prop, path, suffix)
 		if *dump != "" {
 			os.MkdirAll(*dump, 0o755)
